@@ -73,6 +73,30 @@ CHECKS = {
         note='Expected output of a record = parse_or_ignore on that record alone (real decoder); the async generator is '
              'driven synchronously.',
         design='4/C04'),
+    'C07': dict(
+        category='exploration',
+        technique='online trace-specification monitor (subscriber callback grammar, exactly-once future resolution) over exhaustively enumerated bounded histories against a scripted raw peer, plus hostile random mixes with connection cuts',
+        text='One real endpoint is driven against a wire-level raw peer through every history (legal peer frames, local '
+             'application actions incl. repeated / late request() and cancel(), publisher and future signals, a '
+             'connection end) up to depth 4/4/3 (quick) or 6/5/4 (thorough) for request-response / stream / channel in both '
+             'roles, as client and as server, under three spacings and both framings. Each subscriber log must match '
+             'on_subscribe next* terminal? and each library future is watched through a recording Future for a second '
+             'resolution or for being left pending after a terminating event. Held-on-explored, exhaustive up to the bound.',
+        note='Histories come from an abstract legality model of the peer; futures are observed via a Future subclass '
+             'installed by the harness loop for rsocket.helpers.create_future.',
+        design='4/C07'),
+    'C08': dict(
+        category='exploration',
+        technique='online legality automaton over each endpoint\'s own ordered sends (judged when the frame enters the send path) and receptions; hostile-legal random mixes + exhaustive bounded histories',
+        text='Every frame a real endpoint decides to send is judged by an automaton holding, per stream, the role, kind and '
+             'open/closed state of both directions as that endpoint itself has seen them: SETUP first and once, parity, '
+             'streams begin with a request frame, role-allowed frame types, positive initial n, no payload after own '
+             'completion, nothing after own ERROR / requester CANCEL / both directions complete, connection frames on '
+             'stream 0 only. Workload: hostile-legal E-mix (cancels at any instant, errors, never-answering responders, '
+             'late no-op actions, fragmentation) and the C07 history enumeration. Held-on-explored; one known finding.',
+        note='Frames are judged at the moment they enter the send path (a queued frame cannot be recalled, like bytes in a '
+             'socket buffer); SETUP-first and decodability are judged on the wire.',
+        design='4/C08'),
     'C13': dict(
         category='exploration',
         technique='reference-model monitor over exhaustively enumerated allocator histories + wire monitor on real endpoints',
